@@ -1100,40 +1100,8 @@ def _has_nested_key(v):
     return any(x.get("t") == "dict" and (any(k == KW for k, _ in ditems(x)) or _has_nested_key(x)) for _, x in ditems(v))
 
 
-def _sig_sg_passthrough(case, obs, fail):
-    """a valid selection only passes THROUGH an Optional field (TypeError: the field is set to None, then
-    dataclasses.fields(None)) or a subgroups() field (AssertionError: value_of_selection None is not a str)
-    whose current value is a dataclass instance"""
-    if case["op"] != "replace.subgroups" or fail.get("clause") != "sg-outcome":
-        return False
-    c = case["case"]
-    exp = expected_sel_tree(c)
-    if exp is None:
-        return False
-    kinds = set()
-    for q in through_prefixes(c):
-        par = tree_get(exp, q[:-1])
-        kinds.add(field_of(c["classes"], par["cls"], q[-1])["kind"])
-    return (fail.get("exc") == "TypeError" and "opt" in kinds) or (fail.get("exc") == "AssertionError" and "sg" in kinds)
-
-
-def _sig_sg_consumed(case, obs, fail):
-    """the selection has a nested dict with a `__key__` entry: replace_subgroups pops it out of the caller's dict"""
-    return (case["op"] == "replace.subgroups" and fail.get("clause") in ("sg-arg-unchanged", "sg-reuse")
-            and _has_nested_key(case["case"]["sel"]))
-
-
-def _sig_sg_unknown(case, obs, fail):
-    """a selection key that names no field is dropped silently (the call returns normally)"""
-    return (case["op"] == "replace.subgroups" and fail.get("clause") == "sg-unknown-ignored"
-            and obs["out"]["o"] == "ok" and any(s.get("unknown") for s in case["case"]["sels"]))
-
-
 FINDINGS = {
     "C18-D19-dotted-through-noninst": _sig_d19,
-    "C18-subgroups-passthrough-opt-sg": _sig_sg_passthrough,
-    "C18-subgroups-consumes-selection": _sig_sg_consumed,
-    "C18-subgroups-unknown-ignored": _sig_sg_unknown,
 }
 
 
@@ -1258,26 +1226,25 @@ def shrink(case):
 
 
 MANIFEST = {
-    "text": ("Proof, partial (four named gaps: D19 for replace; pass-through under Optional/subgroups parents, consumed "
-             "selection dict and ignored unknown keys for replace_subgroups). PROVED over a branch-by-branch model of "
-             "replace.py and utils.unflatten*: a successful replace() keeps the class and the field skeleton; every addressed "
-             "leaf holds the new value at any depth, for change sets with several edits in any mixture of dotted / nested "
-             "forms (one form per top-level field; path must exist in obj: D19 exclusion, witness given); every init leaf "
-             "no change addresses is untouched (frame); an empty change set is the identity (init=False fields at their "
-             "default); a valid single edit DOES return, and returns r iff dataclasses.replace level by level gives r; the "
-             "dotted/nested choice per edit does not change the outcome for change sets with several edits (fixed entry "
-             "order) and positional-dict = keyword form; a change to an init=False or unknown field at ANY depth never "
-             "returns normally; nested fields may be named obj / changes_dict. replace_subgroups: a top-level selection by "
-             "key, by dataclass type or by instance succeeds and equals dataclasses.replace of that member; unselected "
-             "members are untouched (frame); under a plain (non-Optional, non-subgroups) parent a depth-2 selection succeeds, "
-             "is the level-by-level dataclasses.replace, the selected member is the alternative and every sibling is kept; "
-             "nested __key__ form = flat form and the order of a parent/child entry pair is irrelevant; three full statements "
-             "are refuted by witnesses for the open findings. SAMPLED only (correspondence + oracle, no theorem): obj "
-             "unchanged / result is a new object / the change-set and selection dicts are not consumed and can be reused; "
-             "key ORDER of multi-edit change sets and multi-edit reference; frozen classes; selections at depth 3, several "
-             "selections at once, partial / factory-function choices; the exception CLASS of rejected changes "
-             "(theorems say 'never returns'); init=False fields off their default. The 'unknown fields raise' clause is "
-             "claimed for replace() only; for replace_subgroups it is an open finding. Outside the quantifier and not "
+    "text": ("Proof, partial (one named gap: D19 for replace). PROVED over a branch-by-branch model of replace.py "
+             "(at repairs abc6969 / 452ee05 / bba27c4) and utils.unflatten*: a successful replace() keeps the class and the "
+             "field skeleton; every addressed leaf holds the new value at any depth, for change sets with several edits in any "
+             "mixture of dotted / nested forms (one form per top-level field; path must exist in obj: D19 exclusion, witness "
+             "given); every init leaf no change addresses is untouched (frame); an empty change set is the identity "
+             "(init=False fields at their default); a valid single edit DOES return, and returns r iff dataclasses.replace "
+             "level by level gives r; the dotted/nested choice per edit does not change the outcome for change sets with "
+             "several edits (fixed entry order) and positional-dict = keyword form; a change to an init=False or unknown "
+             "field at ANY depth never returns normally; nested fields may be named obj / changes_dict. replace_subgroups: "
+             "a top-level selection by key, by dataclass type or by instance succeeds and equals dataclasses.replace of "
+             "that member; unselected members are untouched (frame); below a dataclass-valued parent of ANY kind (plain, "
+             "Optional, Union, subgroups) a depth-2 selection succeeds, is the level-by-level dataclasses.replace, the "
+             "selected member is the alternative and every sibling is kept; nested __key__ form = flat form and the order "
+             "of a parent/child entry pair is irrelevant; a selection key that names no field never returns normally. "
+             "SAMPLED only (correspondence + oracle, no theorem): obj unchanged / result is a new object / the change-set "
+             "and selection dicts are not consumed and can be reused (the model is pure: argument mutation cannot be "
+             "expressed in it); key ORDER of multi-edit change sets and multi-edit reference; frozen classes; selections at "
+             "depth 3, several selections at once, partial / factory-function choices; the exception CLASS of rejected "
+             "changes (theorems say 'never returns'); init=False fields off their default. Outside the quantifier and not "
              "judged: mixed forms inside one subtree (replace(t, {'m': d, 'm.w': 2}) writes into the caller's d; "
              "{'m.v': 2, 'm': M(5)} drops the first edit). The model is tied to the code by five correspondence ops; the "
              "property's own statement is evaluated on every real observation."),
